@@ -130,7 +130,7 @@ def impl_vs_impl(rng, n, residuals_only=False, terms_only=False):
         # 1-D non-stationary Neumann term, B time points: the separable network sees the (t_i) x {xmin, xmax} grid
         s, r = spinn(rng, 2, 1, "nonstatio_PDE"); tw = make_twin(s, True)
         Ps = Params(nn_params=s.init_params(), eq_params={}); Pt = Params(nn_params=tw.init_params(), eq_params={})
-        ts = jnp.array([[0.25 * (k + 1) + dy(rng, 0, 2)] for k in range(B)])
+        t0 = dy(rng, 0, 2); ts = jnp.array([[t0 + 0.375 * k] for k in range(B)])          # distinct times
         xs = jnp.array([[dy(rng)] for _ in range(B)])
         bord = jnp.stack([jnp.concatenate([ts, jnp.full((B, 1), xb)], axis=1) for xb in (-1.0, 2.0)], axis=-1)          # (B, 2, 2)
         common = dict(dynamic_loss=None, omega_boundary_fun=lambda t, x: 0.5, omega_boundary_condition="von neumann")
@@ -143,6 +143,24 @@ def impl_vs_impl(rng, n, residuals_only=False, terms_only=False):
                 fails.append({"detail": f"1-D non-stationary Neumann term with {B} time point(s): {float(a['boundary_loss'])} on the separable network, {float(b['boundary_loss'])} on its pointwise twin", "case": dict(what="terms", cond="von neumann 1-D non-stationary", B=B)})
         except Exception as ex:
             fails.append({"detail": f"1-D non-stationary Neumann term with {B} time point(s) raised {type(ex).__name__}: {str(ex)[:160]}", "case": dict(what="terms", cond="von neumann 1-D non-stationary", B=B)})
+        # non-stationary normalisation term: B batch times, N = B, 2B or 4B normalisation samples (the separable branch
+        # repeats the times to the sample count), 1-D space
+        s, r = spinn(rng, 2, 1, "nonstatio_PDE"); tw = make_twin(s, True)
+        Ps = Params(nn_params=s.init_params(), eq_params={}); Pt = Params(nn_params=tw.init_params(), eq_params={})
+        N = B * [1, 2, 4][(rnd // 3) % 3]
+        t0 = dy(rng, 0, 2); ts = jnp.array([[t0 + 0.375 * k] for k in range(B)])          # distinct times
+        xs = jnp.array([[dy(rng)] for _ in range(B)])
+        ns = jnp.array([[dy(rng)] for _ in range(N)])
+        common = dict(dynamic_loss=None, norm_samples=ns, norm_int_length=2.0)
+        Ls = jinns.loss.LossPDENonStatio(u=s, params=Ps, **common); Lt = jinns.loss.LossPDENonStatio(u=tw, params=Pt, **common)
+        txs = jnp.concatenate([ts, xs], axis=1)
+        try:
+            _, a = Ls.evaluate(Ps, PDENonStatioBatch(times_x_inside_batch=txs, times_x_border_batch=None))
+            _, b = Lt.evaluate(Pt, PDENonStatioBatch(times_x_inside_batch=txs, times_x_border_batch=None))
+            if not close(a["norm_loss"], b["norm_loss"]):
+                fails.append({"detail": f"non-stationary normalisation term with {B} time(s) and {N} samples: {float(a['norm_loss'])} on the separable network, {float(b['norm_loss'])} on its pointwise twin", "case": dict(what="terms", cond="normalisation non-stationary", B=B, N=N)})
+        except Exception as ex:
+            fails.append({"detail": f"non-stationary normalisation term with {B} time(s) and {N} samples raised {type(ex).__name__}: {str(ex)[:160]}", "case": dict(what="terms", cond="normalisation non-stationary", B=B, N=N)})
     return fails
 
 
@@ -161,7 +179,7 @@ def generate(tier, seed, casedir, variant):
         dist[k] = dist.get(k, 0) + 1
         if len(samples) < 2:
             samples.append(m)
-    nio = 3 if tier == "quick" else 12
+    nio = 6 if tier == "quick" else 18
     try:
         viol += impl_vs_impl(rng, nio)
     except Exception as ex:
